@@ -158,7 +158,7 @@ def gen_cmdlines(rng, cmd, p):
     res.append((args, None, "file"))
 
     # --- -type=*
-    args = xf() + ["-type=*"]
+    args = xf() + (["-type=*"] if rng.random() < 0.88 else ["-type", "*"])
     if rng.random() < 0.4:
         args.append(rng.choice(["-sep", "-separate"]))
     plan = rng.choices(["match", "match2", "other", "none", "spaced"], [60, 10, 10, 15, 5])[0]
@@ -212,7 +212,9 @@ def gen_cases(run, nskel):
             for args, plan, tag in gen_cmdlines(rng, cmd, skel):
                 p = copy.deepcopy(skel)
                 from_parent = None
-                if rng.random() < 0.15 and tag != "bad":
+                # (`-type *` in two arguments together with a [dir] argument runs into C17's open finding
+                #  K_clean_own_output: Clean() deletes the file just written; kept out of this stream)
+                if rng.random() < 0.15 and tag != "bad" and not ("-type" in args and "*" in args):
                     from_parent = rng.choice(["./p", "p", "./p/"])
                     if from_parent == "./p/":
                         from_parent = "./p"
